@@ -773,6 +773,42 @@ func (w *World) DrawAction(rt *rapid.T, p *Profile) (Action, string) {
 		if names := w.PodNames(); len(names) > 0 {
 			return Action{Op: "clonePod", Names: []string{rapid.SampledFrom(names).Draw(rt, "pod")}, Val: rapid.SampledFrom([]string{"team-b", "team-c", "kube-system"}).Draw(rt, "namespace")}, "clonePod"
 		}
+	case "replaceBetweenScans": // between two scans a pod of the group is replaced by a much larger one of the same name (a roll-out)
+		var mine []string
+		for _, p := range w.Pods {
+			if w.podGroup(p) == g && !ref.IsDaemonSetPod(p) {
+				mine = append(mine, p.Name)
+			}
+		}
+		if len(mine) > 0 {
+			via := "selector"
+			if w.Cfg.Groups[g].Opts.Name == controller.DefaultNodeGroup {
+				via = "none"
+			}
+			n := int64(len(w.GroupNodeNames(g)) + 1)
+			big := PodSpec{Group: g, Via: via, CPU: w.Cfg.Groups[g].NodeCPU * n * int64(rapid.IntRange(1, 3).Draw(rt, "factor")), Mem: 1_000_000}
+			return Action{Op: "seq", Seq: []Action{
+				{Op: "scan", Flag: true},
+				{Op: "replacePod", Names: []string{rapid.SampledFrom(mine).Draw(rt, "pod")}, Pods: []PodSpec{big}},
+				{Op: "scan", Flag: true},
+			}}, "replaceBetweenScans"
+		}
+	case "belowMinWithCordoned": // the group drops below its minimum while one of its tainted nodes is also cordoned
+		names := w.GroupNodeNames(g)
+		o := &w.Cfg.Groups[g].Opts
+		if m := maxInt(o.MinNodes, 1); len(names) >= 2 && len(names) >= m {
+			k := len(names) - m + 1 + rapid.IntRange(0, 1).Draw(rt, "extra")
+			if k > len(names) {
+				k = len(names)
+			}
+			from := rapid.IntRange(0, len(names)-1).Draw(rt, "from")
+			x := names[(from+rapid.IntRange(0, k-1).Draw(rt, "cordoned"))%len(names)]
+			return Action{Op: "seq", Seq: []Action{
+				{Op: "bulk", Group: g, N: k, M: from, Key: "taint", D: time.Duration(rapid.IntRange(0, 20).Draw(rt, "ago")) * time.Second},
+				{Op: "cordon", Node: x, Flag: true},
+				{Op: "scan", Flag: true},
+			}}, "belowMinWithCordoned"
+		}
 	case "pinAsg": // the ASG is pinned (min == max) at or just below the group's node count while utilisation is low
 		if n := len(w.GroupNodeNames(g)); n > 0 {
 			pin := n - rapid.IntRange(0, 1).Draw(rt, "below")
